@@ -7,6 +7,7 @@ package patterns
 
 import (
 	"bytes"
+	"encoding/json"
 	"strings"
 	"testing"
 
@@ -51,12 +52,40 @@ func c37Match(pattern, path string) bool {
 	return err == nil && m
 }
 
+// the second entry point that produces a PathPattern: (*PathPattern).UnmarshalJSON, reached through json.Unmarshal of the
+// quoted pattern (this is how rule constraints arrive). Returns the Coq term (option (NumVariants, #raw expansions capped at
+// 1001)) and the observation.
+func c37JSON(pattern string) (string, map[string]interface{}) {
+	quoted, err := json.Marshal(pattern)
+	if err != nil {
+		panic(err)
+	}
+	var pp PathPattern
+	if err := json.Unmarshal(quoted, &pp); err != nil {
+		return "None", map[string]interface{}{"accepted": false}
+	}
+	n := pp.NumVariants()
+	raws := c37Raw(pp.renderTree, 1001)
+	back, _ := json.Marshal(&pp)
+	return "(Some (" + vh.CoqZ(int64(n)) + ", " + vh.CoqN(uint64(len(raws))) + "))",
+		map[string]interface{}{"accepted": true, "num_variants": n, "raw_count_capped_at_1001": len(raws), "marshals_back": string(back) == string(quoted)}
+}
+
 func c37ExecPat(i c37In) vh.Out {
 	obs := map[string]interface{}{}
+	coqJSON, obsJSON := c37JSON(i.Pattern)
+	obs["json"] = obsJSON
 	pp, err := ParsePathPattern(i.Pattern)
 	if err != nil {
 		obs["accepted"] = false
-		return vh.Out{Observed: obs, Coq: "(CPat " + vh.CoqBytes(i.Pattern) + " None)", Tags: []string{"pat-rejected"}}
+		tags := []string{"pat-rejected"}
+		if obsJSON["accepted"] == true {
+			tags = append(tags, "entry-points-disagree")
+		}
+		return vh.Out{Observed: obs, Coq: "(CPat " + vh.CoqBytes(i.Pattern) + " None " + coqJSON + ")", Tags: tags}
+	}
+	if obsJSON["accepted"] != true {
+		obs["entry_points_disagree"] = true
 	}
 	n := pp.NumVariants()
 	obs["accepted"] = true
@@ -72,7 +101,7 @@ func c37ExecPat(i c37In) vh.Out {
 		for _, r := range raws {
 			coqRaws = append(coqRaws, vh.CoqBytes(r))
 		}
-		coq := "(CPat " + vh.CoqBytes(i.Pattern) + " (Some (" + vh.CoqZ(int64(n)) + ", " + vh.CoqList(coqRaws) + ", [], [])))"
+		coq := "(CPat " + vh.CoqBytes(i.Pattern) + " (Some (" + vh.CoqZ(int64(n)) + ", " + vh.CoqList(coqRaws) + ", [], [])) " + coqJSON + ")"
 		return vh.Out{Observed: obs, Coq: coq, NonTrivial: true, Tags: append(tags, "count-not-positive")}
 	}
 	var variants []PatternVariant
@@ -136,7 +165,7 @@ func c37ExecPat(i c37In) vh.Out {
 		tags = append(tags, "orig-differs-from-variants")
 	}
 	coq := "(CPat " + vh.CoqBytes(i.Pattern) + " (Some (" + vh.CoqZ(int64(n)) + ", " + vh.CoqList(coqRaws) + ", " +
-		vh.CoqList(coqVars) + ", " + vh.CoqList(coqPaths) + ")))"
+		vh.CoqList(coqVars) + ", " + vh.CoqList(coqPaths) + ")) " + coqJSON + ")"
 	return vh.Out{Observed: obs, Coq: coq, NonTrivial: n > 1 || len(i.Paths) > 0, Tags: tags}
 }
 
@@ -523,6 +552,19 @@ func c37Gen(r *vh.Rand, tier string, n int) []c37In {
 			paths = []string{"/123"}
 		}
 		ins = append(ins, c37In{Kind: "pat", Pattern: p, Paths: paths})
+	}
+	// the limit of 1000 expanded patterns, just below / at / just above, through every entry point:
+	// 7*11*13 = 1001, 2^10 = 1024, 3*2^10 = 3072, 999 = 27*37, 1000 is among the witnesses above
+	alts := func(n int) string {
+		s := make([]string, n)
+		for k := range s {
+			s[k] = string(rune('a' + k%26)) + string(rune('a' + k/26))
+		}
+		return "{" + strings.Join(s, ",") + "}"
+	}
+	for _, p := range []string{"/" + alts(7) + alts(11) + alts(13), "/" + strings.Repeat("{a,b}", 10), "/" + strings.Repeat("{a,b}", 10) + "{a,b,c}",
+		"/x/" + alts(27) + "/" + alts(37), "/" + alts(1001), "/" + alts(1000) + "{,/}"} {
+		ins = append(ins, c37In{Kind: "pat", Pattern: p, Paths: []string{"/aa"}})
 	}
 	// fixed members of the nested-group family
 	ins = append(ins,
